@@ -13,6 +13,7 @@ from .common import FIELD, MESH, REGION
 from .c01 import each, _single_return
 
 FLOOR = 40
+CLOSURE_ROOTS = ['field.Field._as_array[Field]', 'field.Field.to_xarray']   # nearest-cell resampling is the Field overload of _as_array (a look-up of the new cell centres in the exported coordinates of the source)
 ANCHORS = [
     'mesh.Mesh._sel_convert_input',
     'mesh.Mesh.sel',
